@@ -29,7 +29,7 @@ var c17Args = []c17Arg{
 	{"0.49999999999999994", "number", true}, {"4503599627370495.5", "number", true}, {"4503599627370496.5", "number", true}, {"9007199254740992", "number", true},
 	{"1" + strings.Repeat("0", 308), "number", true}, {"0.000001", "number", true}, {"0." + strings.Repeat("0", 322) + "5", "number", true},
 	{"(-4)", "number", true}, {"2", "number", false}, {"(2 ** 1024)", "number", true}, {"(-(2 ** 1024))", "number", true}, {"((2 ** 1024) - (2 ** 1024))", "number", true},
-	{"(7 & 3)", "int", false},
+	{"(7 & 3)", "int", false}, {"(~(1 << 63))", "int", true}, {"(1 << 63)", "int", true}, {"((1 << 62) | 1)", "int", true},
 	{"\"s\"", "string", false}, {"\"12\"", "string", false}, {"\"\"", "string", false},
 	{"[]", "array", false}, {"[1, 2]", "array", false}, {"[3, \"x\"]", "array", false}, {"[[1]]", "array", false},
 	{"{}", "object", false}, {"{a: 1}", "object", false}, {"f", "function", false}, {bn.BLen, "builtin", false},
@@ -142,6 +142,66 @@ func TestC17(t *testing.T) {
 				subsets(0, nil)
 			}
 			c.Ev.MarkExhaustive("min/max over every permutation of every subset of <= 4 of 5 distinct numbers, in list form and in single-array form")
+		})
+		// whatever the order the comparison uses for NaN and the two zeros, the result is one of the arguments
+		// (model-free: the arguments are printed first, the result must repeat one of those lines)
+		c.Sub("min-max-membership", func(s *Sub) {
+			var k int64
+			nan := "((2 ** 1024) - (2 ** 1024))"
+			pool := []string{nan, bn.BSqrt + "(-1)", "(2 ** 1024)", "(-(2 ** 1024))", "0", "(-0)", "1", "(-1)", "2.5", "1" + strings.Repeat("0", 308)}
+			var lists [][]string
+			for _, a := range pool {
+				lists = append(lists, []string{a})
+				for _, b := range pool {
+					lists = append(lists, []string{a, b})
+					for _, d := range pool[:6] {
+						lists = append(lists, []string{a, b, d})
+					}
+				}
+			}
+			for _, l := range lists {
+				k++
+				if !c.Mine(k) {
+					continue
+				}
+				var src strings.Builder
+				for _, a := range l {
+					src.WriteString(P + " " + a + ";\n")
+				}
+				j := strings.Join(l, ", ")
+				calls := []string{bn.BMin + "(" + j + ")", bn.BMax + "(" + j + ")", bn.BMin + "([" + j + "])", bn.BMax + "([" + j + "])"}
+				if len(l) == 1 {
+					calls = calls[2:] // a single non-array argument is compared with nothing: the list form needs two
+					calls = append(calls, bn.BMin+"("+j+", "+j+")", bn.BMax+"("+j+", "+j+")")
+				}
+				for _, cl := range calls {
+					src.WriteString(P + " " + cl + ";\n")
+				}
+				r := c.RunB(src.String(), "")
+				c.Ev.EnumCase("min-max-membership", true, func() string { return src.String() }, fmt.Sprintf("membership-%d-args", len(l)))
+				ln := strings.Split(strings.TrimSuffix(r.Out, "\n"), "\n")
+				bad := ""
+				if r.Class() != "clean" || len(ln) != len(l)+len(calls) {
+					bad = "the program must print every argument and every result"
+				} else {
+					for i, res := range ln[len(l):] {
+						member := false
+						for _, a := range ln[:len(l)] {
+							if a == res || (a == "-0" && res == "0") || (a == "0" && res == "-0") {
+								member = true
+							}
+						}
+						if !member {
+							bad = fmt.Sprintf("%s printed %q, which is none of its arguments %q", calls[i], res, ln[:len(l)])
+							break
+						}
+					}
+				}
+				if bad != "" {
+					s.Violation(Replay{Check: "membership", Sig: "not-an-argument", Source: src.String(), Note: bad, Observed: clip(r.Describe(), 500)})
+				}
+			}
+			c.Ev.MarkExhaustive("min and max, list and array form, over every list of 1-3 values from NaN (two producers), +-Inf, +-0, +-1, 2.5, 1e308")
 		})
 		c.Sub("pow-boundaries", func(s *Sub) {
 			if c.Shard != 0 {
